@@ -24,6 +24,7 @@ def parseOp (j : Json) : Option (Op K A M) :=
   | "sign" => some (.sign (strD j "alg") (natD j "msg"))
   | "verify" => some (.verify (strD j "alg") (natD j "msg") (parseSig ((obj? j "sig").getD Json.null))
                         (str? j "cert") (str? j "sigkey"))
+  | "setup" => some (.setup (natD j "path") (strD j "content"))
   | _ => none
 
 def parseThread (j : Json) : Thread K A M :=
@@ -41,30 +42,34 @@ def branchTag : Branch → String
   | .verifyGetSigner => "verify/get-signer"
   | .verifyExplicitKey => "verify/explicit-key"
   | .verifySignerKey => "verify/signer-key"
+  | .setupEntity => "setup/entity"
 
 def branchCode : Branch → String
   | .signNotAllowed => "sNA" | .signNoSigner => "sNS" | .signGetSigner => "sG" | .signSign => "sS"
   | .verifyNoSigner => "vNS" | .verifyGetSigner => "vG" | .verifyExplicitKey => "vX" | .verifySignerKey => "vK"
+  | .setupEntity => "sE"
 
 def allBranches : List Branch :=
   [.signNotAllowed, .signNoSigner, .signGetSigner, .signSign,
-   .verifyNoSigner, .verifyGetSigner, .verifyExplicitKey, .verifySignerKey]
+   .verifyNoSigner, .verifyGetSigner, .verifyExplicitKey, .verifySignerKey, .setupEntity]
 
 def traceJson (tr : List (Nat × Branch)) : Json :=
   jarr (tr.map fun (t, b) => jarr [toJson t, Json.str (pointCode b.point)])
 
-def obsJson (t : Nat) : Obs K → Json
-  | .refused => Json.mkObj [("t", toJson t), ("r", "refused")]
-  | .crashed => Json.mkObj [("t", toJson t), ("r", "crash")]
-  | .signed vs => Json.mkObj [("t", toJson t), ("r", "sig"), ("verifiers", jstrs vs), ("intact", true)]
-  | .verified ok => Json.mkObj [("t", toJson t), ("r", "verified"), ("ok", ok)]
+def obsJson (t i : Nat) : Obs K → Json
+  | .refused => Json.mkObj [("t", toJson t), ("i", toJson i), ("r", "refused")]
+  | .crashed => Json.mkObj [("t", toJson t), ("i", toJson i), ("r", "crash")]
+  | .signed vs => Json.mkObj [("t", toJson t), ("i", toJson i), ("r", "sig"), ("verifiers", jstrs vs), ("intact", true)]
+  | .verified ok => Json.mkObj [("t", toJson t), ("i", toJson i), ("r", "verified"), ("ok", ok)]
+  | .setupDone => Json.mkObj [("t", toJson t), ("i", toJson i), ("r", "setup")]
 
-def parseObs (j : Json) : Nat × Obs K :=
-  (natD j "t",
+def parseObs (j : Json) : Nat × Nat × Obs K :=
+  (natD j "t", natD j "i",
    match strD j "r" with
    | "refused" => .refused
    | "sig" => .signed (strList j "verifiers")
    | "verified" => .verified (boolD j "ok")
+   | "setup" => .setupDone
    | _ => .crashed)
 
 def parseTrace (j : Json) : List (Nat × String) :=
@@ -97,13 +102,18 @@ def noopTags (tb : Tables A) (threads : List (Thread K A M)) (sched : List Nat) 
       go g' rest acc
   (go (init threads) sched []).eraseDups
 
-def firstBad (keys : List K) (obs : List (Nat × Obs K)) : Option String :=
-  (obs.find? fun p => match keys[p.1]? with
-      | some own => !specEvent own p.2
-      | none => true).map fun p =>
-    match keys[p.1]?, p.2 with
-    | some own, .signed vs => s!"thread {p.1} (entity key {own}): signature verifies under {vs}, must verify under {own} and no other key"
-    | _, _ => s!"result attributed to unknown thread {p.1}"
+def firstBad (tb : Tables A) (threads : List (Thread K A M)) (obs : List (Nat × Nat × Obs K)) : Option String :=
+  (obs.find? fun p => !specEntry tb threads p).map fun p =>
+    match threads[p.1]? with
+    | none => s!"result attributed to unknown thread {p.1}"
+    | some th =>
+      let own := keyAfter th.key (th.prog.take p.2.1)
+      match th.prog[p.2.1]?, p.2.2 with
+      | some (.sign _ _), .signed vs =>
+          s!"thread {p.1} op {p.2.1} (entity key {own}): signature verifies under {vs}, must verify under {own} and no other key"
+      | some (.verify _ _ sig (some c) _), .verified ok =>
+          s!"thread {p.1} op {p.2.1} (verifier backend {own}): signature made by {sig.key} checked against certificate {c} gives {ok}"
+      | _, _ => s!"thread {p.1} op {p.2.1}: result does not belong to the operation at that index"
 
 def handle (line : Json) : Json :=
   let c := (obj? line "case").getD Json.null
@@ -116,7 +126,6 @@ def handle (line : Json) : Json :=
   let tb : Tables A := { allowed := fun a => allowed.contains a, hasSigner := fun a => signerAlgs.contains a }
   let full := complete threads sched
   let univ := certUniverse threads extra
-  let keys := threads.map (·.key)
   let g := run tb threads full
   let gs := runSh tb threads full
   let mObs := observe univ g.out
@@ -132,7 +141,7 @@ def handle (line : Json) : Json :=
   let preempt := (obj? c "preempt").isSome
   let nWorkers := (natList c "workers").eraseDups.length
   let stream := if preempt then "preempt" else if (arr? c "workers").isSome then s!"pool{nWorkers}" else "gates"
-  let canon : List (Nat × Obs K) → List (Nat × Obs K) := fun l =>
+  let canon : List (Nat × Nat × Obs K) → List (Nat × Nat × Obs K) := fun l =>
     if preempt then (List.range threads.length).flatMap (fun t => l.filter (fun p => p.1 == t)) else l
   let sameTrace : List (Nat × String) → Bool := fun tr => preempt || decide (iTrace = tr)
   let likeM := decide (canon iObs = canon mObs) && sameTrace mTrace && iIntact
@@ -146,17 +155,17 @@ def handle (line : Json) : Json :=
   let tags := hit.map branchTag ++ noops
   let codes := hit.map branchCode ++ noops.map fun s => if s == "slot/finished-thread" then "xF" else "xT"
   let path := s!"{stream}/{threads.length}t/{cls}/{"+".intercalate codes}"
-  let specI := specOk keys iObs
+  let specI := specOk tb threads iObs
   let base : List (String × Json) :=
-    [("model", Json.mkObj [("trace", traceJson g.trace), ("events", jarr (mObs.map fun p => obsJson p.1 p.2))]),
+    [("model", Json.mkObj [("trace", traceJson g.trace), ("events", jarr (mObs.map fun p => obsJson p.1 p.2.1 p.2.2))]),
      ("model_shared", if race || decide (mTrace ≠ sTrace) then
-        Json.mkObj [("trace", traceJson gs.trace), ("events", jarr (sObs.map fun p => obsJson p.1 p.2))]
+        Json.mkObj [("trace", traceJson gs.trace), ("events", jarr (sObs.map fun p => obsJson p.1 p.2.1 p.2.2))]
       else Json.str "same-as-model"),
      ("like", like), ("class", cls), ("stream", stream), ("tags", jstrs tags), ("path", path),
-     ("spec_model", specOk keys mObs), ("spec_impl", specI)]
+     ("spec_model", specOk tb threads mObs), ("spec_impl", specI)]
   let why : List (String × Json) :=
     if specI then [] else
-      [("why", Json.str ((firstBad keys iObs).getD "?" ++
+      [("why", Json.str ((firstBad tb threads iObs).getD "?" ++
          (if likeS && !likeM then "; the implementation's output equals the SHARED-MUTABLE-KEY model (design before fix d2fa3ada)" else "")))]
   Json.mkObj (base ++ why)
 
